@@ -611,32 +611,51 @@ theorem syncOne_micros (s : Sys) (jo : JobObj) (hc : s.jobCache = some jo) : Mic
   have h1 := (sync_spec s jo s (CreatePhase.refl _)).1
   generalize hs : sync s jo = r1 at h1 ⊢
   obtain ⟨s1, newJob, newFin, syncOk, nullTime⟩ := r1
+  have e0 : s1 = (sync s jo).1 := by rw [hs]
   have e1 : newJob = (sync s jo).2.1 := by rw [hs]
   have e2 : newFin = (sync s jo).2.2.1 := by rw [hs]
   simp only at h1 ⊢
-  have h2 : Micros jo s s1 (if (newJob.admissionError ≠ jo.job.admissionError || newFin ≠ jo.finalizer) = true then
-        apiUpdateJob s1 jo { jo with job := newJob, finalizer := newFin } else (s1, true)).1 := by
-    split
-    · rw [e1, e2]; exact .single (.updJob s1 (by rw [hs]))
-    · exact .refl s1
-  generalize (if (newJob.admissionError ≠ jo.job.admissionError || newFin ≠ jo.finalizer) = true then
-        apiUpdateJob s1 jo { jo with job := newJob, finalizer := newFin } else (s1, true)) = r2 at h2 ⊢
-  obtain ⟨s2, ok1⟩ := r2
-  simp only at h2 ⊢
-  cases ok1 with
-  | false => simp only [Bool.not_false, ↓reduceIte]; exact h1.trans h2
-  | true =>
-    simp only [Bool.not_true, Bool.false_eq_true, ↓reduceIte]
-    have h3 : Micros jo s s2 (if (decide (newJob.status ≠ jo.job.status) || nullTime) = true then
-        apiUpdateJobStatus s2 jo { jo with job := newJob } else (s2, true)).1 := by
+  by_cases hsd : (newJob.admissionError ≠ jo.job.admissionError || newFin ≠ jo.finalizer) = true
+  · -- metadata differ: `Update`, then the status write on top of the object it returned
+    simp only [hsd, ↓reduceIte, statusBase]
+    have h2 : Micros jo s s1 (apiUpdateJob s1 jo { jo with job := newJob, finalizer := newFin }).1 := by
+      rw [e1, e2]; exact .single (.updJob s1 e0)
+    have hokeq : ∀ b, (apiUpdateJob s1 jo { jo with job := newJob, finalizer := newFin }).2 = b →
+        (apiUpdateJob s1 jo { jo with job := (sync s jo).2.1, finalizer := (sync s jo).2.2.1 }).2 = b := by
+      intro b hb; rw [← e1, ← e2]; exact hb
+    have hseq : (apiUpdateJob s1 jo { jo with job := newJob, finalizer := newFin }).1 =
+        (apiUpdateJob s1 jo { jo with job := (sync s jo).2.1, finalizer := (sync s jo).2.2.1 }).1 := by
+      rw [← e1, ← e2]
+    generalize hr2 : apiUpdateJob s1 jo { jo with job := newJob, finalizer := newFin } = r2 at h2 hokeq hseq ⊢
+    obtain ⟨s2, ok1⟩ := r2
+    simp only at h2 hokeq hseq ⊢
+    cases ok1 with
+    | false => simp only [Bool.not_false, ↓reduceIte]; exact h1.trans h2
+    | true =>
+      simp only [Bool.not_true, Bool.false_eq_true, ↓reduceIte]
+      have h3 : Micros jo s s2 (if (decide (newJob.status ≠ jo.job.status) || nullTime) = true then
+          apiUpdateJobStatus s2 { jo with rv := updatedRv s2 jo } { jo with job := newJob } else (s2, true)).1 := by
+        split
+        · rw [e1]; exact .single (.updStatusOn s2 s1 e0 hseq (hokeq true rfl))
+        · exact .refl s2
+      generalize (if (decide (newJob.status ≠ jo.job.status) || nullTime) = true then
+          apiUpdateJobStatus s2 { jo with rv := updatedRv s2 jo } { jo with job := newJob } else (s2, true)) = r3
+        at h3 ⊢
+      obtain ⟨s3, ok2⟩ := r3
+      simp only at h3 ⊢
+      cases ok2 <;> exact (h1.trans h2).trans h3
+  · -- nothing to `Update`: the status write carries the cached resourceVersion
+    simp only [hsd, Bool.false_eq_true, ↓reduceIte, statusBase, Bool.not_true]
+    have h3 : Micros jo s s1 (if (decide (newJob.status ≠ jo.job.status) || nullTime) = true then
+        apiUpdateJobStatus s1 jo { jo with job := newJob } else (s1, true)).1 := by
       split
-      · rw [e1]; exact .single (.updStatus s2)
-      · exact .refl s2
+      · rw [e1]; exact .single (.updStatus s1)
+      · exact .refl s1
     generalize (if (decide (newJob.status ≠ jo.job.status) || nullTime) = true then
-        apiUpdateJobStatus s2 jo { jo with job := newJob } else (s2, true)) = r3 at h3 ⊢
+        apiUpdateJobStatus s1 jo { jo with job := newJob } else (s1, true)) = r3 at h3 ⊢
     obtain ⟨s3, ok2⟩ := r3
     simp only at h3 ⊢
-    cases ok2 <;> exact (h1.trans h2).trans h3
+    cases ok2 <;> exact h1.trans h3
 
 theorem syncOne_frame (s : Sys) (hc : s.jobCache = none) : syncOne s = (s, true) := by
   unfold syncOne
